@@ -116,9 +116,10 @@ def run_safety(case):
         out = pipeline.run_brew(paths, learner=case["learner"], folds=case["folds"], seed=int(rng.integers(1 << 30)),
                                 test_fdr=fdr, train_fdr=train_fdr, max_iter=2, override=case["override"], max_workers=w,
                                 perturb=int(rng.integers(1 << 30)),
-                                history=(case["seed"] + case["index"]) if case["index"] % 5 in (1, 3) else None)
+                                history=(case["seed"] + case["index"]) if case["index"] % 5 in (1, 3) else None,
+                                history_mode="few_decoys" if case["index"] % 5 == 3 else "permuted")
         if out.get("history_prelude_completed"):
-            res.count("runs_after_history_prelude")
+            res.count("runs_after_history_prelude" + (":few_decoys" if case["index"] % 5 == 3 else ""))
         extra_workers = w
         extra = {k: case[k] for k in ("learner", "enc", "best_desc", "fmt", "nfiles", "folds", "override")}
         extra["fdr"] = fdr
